@@ -1,6 +1,8 @@
 import Fundraising.Spec.Invariants
 import Fundraising.Proofs.ExecLemmas
 import Fundraising.Proofs.DecLemmas
+import Fundraising.Proofs.LedgerMsgs
+import Fundraising.Proofs.LedgerBlock
 /-
   C02 — operations are zero-sum; the only debits of user accounts are the advertised fee and
   the reservation.  STATEMENTS ARE FIXED (cited by Props/C02.lean).
@@ -20,24 +22,146 @@ def Transfer.delta (t : Transfer) (a : Addr) (d : Denom) : Int :=
 def Op.isModuleOp : Op → Bool
   | .msg _ => true | .kadd .. => true | .kupd .. => true | .block _ => true | _ => false
 
+
+/-! ### helpers (the fixed statements follow below) -/
+namespace LedgerInv
+
+theorem xfersOf_eq (l : List Eff) : xfersOf l = xfers l := rfl
+
+theorem delta_eq (t : Transfer) (a : Addr) (d : Denom) : t.delta a d = tdelta t a d := rfl
+
+theorem net_eq (xs : List Transfer) (a : Addr) (d : Denom) : (xs.map (·.delta a d)).sum = net xs a d := rfl
+
+/-- an atomic run of a handler all of whose successful executions are accounted for by
+    their logged transfers -/
+theorem run_led (st : State) (recover : Bool) (f : Ctx → M Ctx)
+    (hf : ∀ c', f { s := st.core, ctl := st.ctl } = .ok c' →
+      ∃ xs, Led { s := st.core, ctl := st.ctl } c' xs) :
+    ((runAtomic st recover f).1.res = .ok ∧
+      ∀ a d, (runAtomic st recover f).2.core.bank a d =
+        st.core.bank a d + net (xfers (runAtomic st recover f).1.effs) a d) ∨
+    ((runAtomic st recover f).1.res ≠ .ok ∧ xfers (runAtomic st recover f).1.effs = [] ∧
+      (runAtomic st recover f).2.core = st.core) := by
+  rcases runAtomic_led st recover f with ⟨c, hc, hres, heffs, hcore⟩ | h
+  · obtain ⟨xs, hl⟩ := hf c hc
+    obtain ⟨hx, hb⟩ := hl.start
+    refine Or.inl ⟨hres, ?_⟩
+    intro a d
+    rw [hcore, heffs, hx]
+    exact hb a d
+  · exact Or.inr h
+
+/-- every module operation: accounted for on success, no transfer and no change on failure -/
+theorem step_led (st : State) (op : Op) (hop : op.isModuleOp = true) :
+    ((step st op).1.res = .ok ∧
+      ∀ a d, (step st op).2.core.bank a d = st.core.bank a d + net (xfers (step st op).1.effs) a d) ∨
+    ((step st op).1.res ≠ .ok ∧ xfers (step st op).1.effs = [] ∧ (step st op).2.core.bank = st.core.bank) := by
+  cases op with
+  | msg m =>
+    rcases run_led st true (fun c => deliver c m) (fun c' h => deliver_led h) with h | ⟨h1, h2, h3⟩
+    · exact Or.inl h
+    · exact Or.inr ⟨h1, h2, by rw [show (step st (.msg m)).2.core = st.core from h3]⟩
+  | kadd aid abs =>
+    rcases run_led st true (fun c => addAllowedBidders c aid abs)
+      (fun c' h => ⟨_, addAllowedBidders_led h⟩) with h | ⟨h1, h2, h3⟩
+    · exact Or.inl h
+    · exact Or.inr ⟨h1, h2, by rw [show (step st (.kadd aid abs)).2.core = st.core from h3]⟩
+  | kupd aid u cap =>
+    rcases run_led st true (fun c => updateAllowedBidder c aid u cap)
+      (fun c' h => ⟨_, updateAllowedBidder_led h⟩) with h | ⟨h1, h2, h3⟩
+    · exact Or.inl h
+    · exact Or.inr ⟨h1, h2, by rw [show (step st (.kupd aid u cap)).2.core = st.core from h3]⟩
+  | block t =>
+    rcases run_led { st with core := { st.core with now := t } } false (fun c => beginBlock c t)
+      (fun c' h => by obtain ⟨xs, hl, _⟩ := beginBlock_led h; exact ⟨xs, hl⟩) with h | ⟨h1, h2, h3⟩
+    · exact Or.inl h
+    · refine Or.inr ⟨h1, h2, ?_⟩
+      rw [show (step st (.block t)).2.core = { st.core with now := t } from h3]
+  | _ => simp [Op.isModuleOp] at hop
+
+theorem sum_map_add {α : Type} (L : List α) (f g : α → Int) :
+    (L.map (fun a => f a + g a)).sum = (L.map f).sum + (L.map g).sum := by
+  induction L with
+  | nil => rfl
+  | cons x L ih => simp only [List.map_cons, List.sum_cons, ih]; omega
+
+theorem sum_map_sub {α : Type} (L : List α) (f g : α → Int) :
+    (L.map (fun a => f a - g a)).sum = (L.map f).sum - (L.map g).sum := by
+  induction L with
+  | nil => rfl
+  | cons x L ih => simp only [List.map_cons, List.sum_cons, ih]; omega
+
+theorem sum_indicator_notMem {α : Type} [DecidableEq α] (L : List α) (x : α) (m : Int) (h : x ∉ L) :
+    (L.map (fun a => if a = x then m else 0)).sum = 0 := by
+  induction L with
+  | nil => rfl
+  | cons y L ih =>
+    have hy : y ≠ x := fun e => h (e ▸ List.mem_cons_self ..)
+    have hL : x ∉ L := fun e => h (List.mem_cons_of_mem _ e)
+    simp only [List.map_cons, List.sum_cons, ih hL, if_neg hy]; omega
+
+theorem sum_indicator {α : Type} [DecidableEq α] (L : List α) (x : α) (m : Int) (hnd : L.Nodup) (h : x ∈ L) :
+    (L.map (fun a => if a = x then m else 0)).sum = m := by
+  induction L with
+  | nil => cases h
+  | cons y L ih =>
+    rw [List.nodup_cons] at hnd
+    simp only [List.map_cons, List.sum_cons]
+    by_cases hy : y = x
+    · subst hy
+      rw [if_pos rfl, sum_indicator_notMem L y m hnd.1]; omega
+    · rw [if_neg hy]
+      rcases List.mem_cons.mp h with e | e
+      · exact (hy e.symm).elim
+      · rw [ih hnd.2 e]; omega
+
+theorem tdelta_zero_sum (t : Transfer) (L : List Addr) (hnd : L.Nodup) (hs : t.src ∈ L) (hd : t.dst ∈ L)
+    (d : Denom) : (L.map (fun a => tdelta t a d)).sum = 0 := by
+  unfold tdelta
+  rw [sum_map_sub, sum_indicator L t.dst _ hnd hd, sum_indicator L t.src _ hnd hs]; omega
+
+/-- a successful message: the handler ran on the initial context after `ValidateBasic` -/
+theorem msg_ok {st : State} {m : Msg} (hok : (step st (.msg m)).1.res = .ok) :
+    ∃ c, validateBasic m = true ∧ handle { s := st.core, ctl := st.ctl } m = .ok c ∧
+      (step st (.msg m)).1.effs = c.effs := by
+  rcases runAtomic_led st true (fun c => deliver c m) with ⟨c, hc, _, heffs, _⟩ | ⟨h, _⟩
+  · obtain ⟨hv, hh⟩ := deliver_ok hc
+    exact ⟨c, hv, hh, heffs⟩
+  · exact (h hok).elim
+
+/-- an atomic run of a handler that logs no transfer -/
+theorem run_no_xfers (st : State) (recover : Bool) (f : Ctx → M Ctx)
+    (hf : ∀ c', f { s := st.core, ctl := st.ctl } = .ok c' → Led { s := st.core, ctl := st.ctl } c' []) :
+    xfers (runAtomic st recover f).1.effs = [] := by
+  rcases runAtomic_led st recover f with ⟨c, hc, _, heffs, _⟩ | ⟨_, h, _⟩
+  · rw [heffs]; exact (hf c hc).start.1
+  · exact h
+
+end LedgerInv
+open LedgerInv
+
 /-- **ledger.**  After a successful module operation every balance is the old balance plus the
     net of the logged transfers: the module moves coins only through the logged bank calls —
     it never mints, burns or strands coins -/
 theorem ledger_pointwise (st : State) (op : Op) (hop : op.isModuleOp = true)
     (hok : (step st op).1.res = .ok) (a : Addr) (d : Denom) :
     (step st op).2.core.bank a d = st.core.bank a d + ((xfersOf (step st op).1.effs).map (·.delta a d)).sum := by
-  sorry
+  rcases step_led st op hop with ⟨_, h⟩ | ⟨h, _⟩
+  · exact h a d
+  · exact (h hok).elim
 
 /-- a failed module operation changes no balance -/
 theorem failed_op_no_transfer (st : State) (op : Op) (hop : op.isModuleOp = true)
     (h : (step st op).1.res ≠ .ok) : (step st op).2.core.bank = st.core.bank := by
-  sorry
+  rcases step_led st op hop with ⟨h', _⟩ | ⟨_, _, h'⟩
+  · exact (h h').elim
+  · exact h'
 
 /-- **zero-sum.**  Over any duplicate-free set of accounts that contains both ends of a
     transfer, the transfer's net effect is zero in every denomination -/
 theorem delta_zero_sum (t : Transfer) (L : List Addr) (hnd : L.Nodup) (hs : t.src ∈ L) (hd : t.dst ∈ L)
     (d : Denom) : (L.map (fun a => t.delta a d)).sum = 0 := by
-  sorry
+  exact tdelta_zero_sum t L hnd hs hd d
 
 /-- third-party transfers are zero-sum too; `fund` (the faucet) is the only operation that
     changes the supply -/
@@ -45,7 +169,18 @@ theorem gift_zero_sum (st : State) (src : Acc) (dst : Addr) (d : Denom) (amt : I
     (L : List Addr) (hnd : L.Nodup) (hs : Addr.user src ∈ L) (hd : dst ∈ L) (d' : Denom) :
     (L.map (fun a => (step st (.gift src dst d amt)).2.core.bank a d')).sum =
     (L.map (fun a => st.core.bank a d')).sum := by
-  sorry
+  simp only [step]
+  split
+  · rfl
+  · split
+    · rename_i b hb
+      have hb' := sendCoins_delta hb
+      have e : (fun a => b a d') = (fun a => st.core.bank a d' +
+          tdelta ⟨.send, .user src, dst, [⟨d, amt⟩]⟩ a d') := by
+        funext a; exact hb' a d'
+      show (L.map (fun a => b a d')).sum = _
+      rw [e, sum_map_add, tdelta_zero_sum _ L hnd hs hd d']; omega
+    · rfl
 
 /-! ### the only debits of user accounts -/
 
@@ -55,7 +190,12 @@ theorem create_transfers (st : State) (m : CreateMsg) (hok : (step st (.msg (.cr
     xfersOf (step st (.msg (.create m))).1.effs =
       [⟨.pool, .user m.auctioneer, .pool, st.core.params.creationFee⟩,
        ⟨.send, .user m.auctioneer, .sell st.core.views.length, [⟨m.sellDenom, m.sellAmt⟩]⟩] := by
-  sorry
+  obtain ⟨c, hv, hh, heffs⟩ := msg_ok hok
+  rw [heffs, xfersOf_eq, (createAuction_led hh).start.1]
+  simp only [validateBasic, Bool.and_eq_true, decide_eq_true_eq] at hv
+  have hpos : m.sellAmt > 0 := hv.1.1.1.1.1.2
+  have hne : m.sellAmt ≠ 0 := by omega
+  simp [hne]
 
 /-- bid placement: the advertised bid fee to the pool, then the bid's reservation to the
     auction's paying escrow -/
@@ -68,7 +208,14 @@ theorem place_transfers (st : State) (bidder : Acc) (aid : Nat) (t : BidType) (p
     xfersOf (step st (.msg (.place bidder aid (some t) price denom amt))).1.effs =
       [⟨.pool, .user bidder, .pool, st.core.params.bidFee⟩,
        ⟨.send, .user bidder, .pay aid, if r = 0 then [] else [⟨v.a.payDenom, r⟩]⟩] := by
-  sorry
+  intro bid r
+  obtain ⟨c, _, hh, heffs⟩ := msg_ok hok
+  obtain ⟨v', hv', hl⟩ := placeBid_led hh
+  have e : v' = v := by
+    have : some v' = some v := hv'.symm.trans hv
+    exact Option.some.inj this
+  subst e
+  rw [heffs, xfersOf_eq, hl.start.1]
 
 /-- modification: nothing, or the increase of the reservation to the paying escrow -/
 theorem modify_transfers (st : State) (bidder : Acc) (aid bidId : Nat) (price : Dec) (denom : Denom)
@@ -76,20 +223,30 @@ theorem modify_transfers (st : State) (bidder : Acc) (aid bidId : Nat) (price : 
     xfersOf (step st (.msg (.modify bidder aid bidId price denom amt))).1.effs = [] ∨
     ∃ d x, 0 < x ∧ xfersOf (step st (.msg (.modify bidder aid bidId price denom amt))).1.effs =
       [⟨.send, .user bidder, .pay aid, [⟨d, x⟩]⟩] := by
-  sorry
+  obtain ⟨c, _, hh, heffs⟩ := msg_ok hok
+  rw [heffs, xfersOf_eq]
+  rcases modifyBid_led hh with hl | ⟨d, x, hx, hl⟩
+  · exact Or.inl hl.start.1
+  · exact Or.inr ⟨d, x, hx, hl.start.1⟩
 
 /-- cancel: one transfer, out of the selling escrow to the auctioneer -/
 theorem cancel_transfers (st : State) (signer : Acc) (aid : Nat)
     (hok : (step st (.msg (.cancel signer aid))).1.res = .ok) :
     ∃ coins, xfersOf (step st (.msg (.cancel signer aid))).1.effs = [⟨.send, .sell aid, .user signer, coins⟩] := by
-  sorry
+  obtain ⟨c, _, hh, heffs⟩ := msg_ok hok
+  obtain ⟨coins, hl⟩ := cancelAuction_led hh
+  exact ⟨coins, by rw [heffs, xfersOf_eq, hl.start.1]⟩
 
 /-- allow-list operations and parameter changes move no coins -/
 theorem admin_no_transfers (st : State) (op : Op)
     (hop : (∃ a abs, op = .kadd a abs) ∨ (∃ a u c, op = .kupd a u c) ∨ (∃ s p, op = .msg (.updateParams s p))
            ∨ (∃ a ab, op = .msg (.addAllowed a ab))) :
     xfersOf (step st op).1.effs = [] := by
-  sorry
+  rcases hop with ⟨a, abs, rfl⟩ | ⟨a, u, c, rfl⟩ | ⟨sg, p, rfl⟩ | ⟨a, ab, rfl⟩
+  · exact run_no_xfers st true _ (fun c' h => addAllowedBidders_led h)
+  · exact run_no_xfers st true _ (fun c' h => updateAllowedBidder_led h)
+  · exact run_no_xfers st true _ (fun c' h => updateParams_led (deliver_ok h).2)
+  · exact run_no_xfers st true _ (fun c' h => addAllowed_led (deliver_ok h).2)
 
 /-- blocks: every transfer leaves an escrow of some auction (never a user account) and goes
     to a user account or from the paying to the vesting escrow of the same auction -/
@@ -97,6 +254,14 @@ theorem block_transfers (st : State) (t : Int) :
     ∀ x ∈ xfersOf (step st (.block t)).1.effs,
       (∃ i u, (x.src = .sell i ∨ x.src = .pay i ∨ x.src = .vest i) ∧ x.dst = .user u) ∨
       (∃ i, x.src = .pay i ∧ x.dst = .vest i) := by
-  sorry
+  intro x hx
+  have hx : x ∈ xfers (runAtomic { st with core := { st.core with now := t } } false
+      (fun c => beginBlock c t)).1.effs := hx
+  rcases runAtomic_led { st with core := { st.core with now := t } } false (fun c => beginBlock c t)
+    with ⟨c, hc, _, heffs, _⟩ | ⟨_, h, _⟩
+  · obtain ⟨xs, hl, hp⟩ := beginBlock_led hc
+    rw [heffs, hl.start.1] at hx
+    exact hp x hx
+  · rw [h] at hx; cases hx
 
 end Fundraising
